@@ -45,6 +45,7 @@ class C18(Check):
     quick_runs = 16000
     thorough_runs = 400000
     chunk = 40
+    max_confirm = 3
     rule = (
         "seeded write histories (single/bulk inserts, replaces, deletes, blind replace_last, occasional client reads, "
         "bucket ops, clean/dirty restarts) on sqlite-lazy under the virtual clock with forward-only inter-arrival "
@@ -162,17 +163,34 @@ class C18(Check):
     def extra_result(self, world, run, res):
         res["extra"] = dict(world.stats)
 
+    CANARY = [
+        {"op": "create", "b": "b0", "meta": {"type": "t", "client": "c", "hostname": "h", "created_us": 1_600_000_000_000_000, "off": 0}},
+        {"op": "insert1", "b": "b0", "ev": {"ts": 1_600_000_001_000_000, "off": 0, "dur": 0, "data": {"u": 1}}},
+        {"op": "tick", "us": 11_500_000},
+        {"op": "insert1", "b": "b0", "ev": {"ts": 1_600_000_002_000_000, "off": 0, "dur": 0, "data": {"u": 2}}},
+    ]
+
     def confirm(self, run, result):
-        """Dead-seam guard: virtual time alone never convicts."""
-        r = dict(run, real_clock=True)
-        total = sum(min(max(s.get("us", 0), 0), 11_500_000) for s in r["steps"] if s["op"] in ("tick", "slow"))
-        if total > 60_000_000:
-            return False, "minimised schedule needs %.0f s of real sleeping; not confirmed" % (total / 1e6)
-        rd = os.path.join(seams.SCRATCH_ROOT, "confirm-real")
-        res = self.execute(r, rd)
-        if res["status"] == "violation" and res["tag"] == result["tag"]:
-            return True, "reproduced under the real clock (%.1f s of real sleeping)" % (total / 1e6)
-        return False, "virtual-time failure did NOT reproduce under the real clock (status %s): the clock seam may be dead" % res["status"]
+        """Dead-seam guard: virtual time alone never convicts.
+
+        1. If the minimised schedule can be slept through (<= 40 s), it is re-run under the REAL clock and must
+           fail the same way.
+        2. Otherwise (e.g. day-long gaps) the seam's liveness is established by a canary: 'write, wait 11.5 s,
+           write' is run under the real clock and under the virtual clock; if both give the same verdict the store
+           demonstrably reads the clock through the seam, and the virtual-time failure stands."""
+        total = sum(min(max(s.get("us", 0), 0), 11_500_000) for s in run["steps"] if s["op"] in ("tick", "slow"))
+        exact = all(s.get("us", 0) <= 11_500_000 for s in run["steps"] if s["op"] in ("tick", "slow"))
+        if exact and total <= 40_000_000:
+            res = self.execute(dict(run, real_clock=True), os.path.join(seams.SCRATCH_ROOT, "confirm-real"))
+            if res["status"] == "violation" and res["tag"] == result["tag"]:
+                return True, "reproduced under the real clock (%.1f s of real sleeping)" % (total / 1e6)
+            return False, "virtual-time failure did NOT reproduce under the real clock (status %s): the clock seam may be dead" % res["status"]
+        canary = {"backend": "sqlite", "steps": self.CANARY, "clock": "canary"}
+        v = self.execute(dict(canary), os.path.join(seams.SCRATCH_ROOT, "canary-virtual"))
+        r = self.execute(dict(canary, real_clock=True), os.path.join(seams.SCRATCH_ROOT, "canary-real"))
+        if v["status"] == r["status"] and v["status"] in ("ok", "violation"):
+            return True, "schedule needs gaps that cannot be slept through; clock seam shown alive by canary agreement (virtual %s, real %s)" % (v["status"], r["status"])
+        return False, "canary disagrees between virtual (%s) and real (%s) clock: the clock seam is dead; virtual-time failure not reported" % (v["status"], r["status"])
 
 
 CHECK = C18()
